@@ -138,6 +138,20 @@ def cases_for(tier, rng):
             body = [T('b1'), Raise(nm, [T('m-'), V('v')], x=True), T('b2')]
             cases.append(dict(prog=[Try([mk_try(body, names, True)], [([], [T('OUT:'), V('error_type'), T('/'), V('error_value')])], None)] + tail,
                               src=sources(kw=ns7), K=0, fk=[]))
+    # 8. an exception outside the Exception branch (a cancelled request, KeyboardInterrupt, SystemExit) raised by a namespace
+    #    callable: no handler naming another class catches it, every finally body on its way out is rendered exactly once
+    ns8 = dict(NS, fx=fn('FX', plain('never'), beh='Cancelled'))
+    tf8 = TryF([T('b'), V('f1'), V('fx'), T('b2')], [T('F'), V('f2')])
+    progs8 = [[tf8], [TryF([tf8], [T('F2'), V('f1')])],
+              [Try([tf8], [(['Exception'], [T('H'), V('error_type')]), (['KeyError', 'ValueError'], [T('K')])], [T('E')])],
+              [TryF([Try([V('fx')], [(['LookupError'], [T('L')]), (['Exception'], [T('X')])], [T('E')])], [T('F'), V('f2')])],
+              [TryF([Raise('ValueError', [T('m'), V('fx')])], [T('F'), V('f2')])],
+              [TryF([T('b'), V('fx')], [T('F'), V('f2'), Return(N('rv'))])],
+              [TryF([T('b'), V('fx')], [T('F'), raiser('KeyError', 'f')])]]
+    progs8 += [[b1] for b1 in blocks([T('in'), tf8, T('unreached')])]
+    for pg in progs8:
+        cases.append(dict(prog=[T('pre')] + pg + tail, src=sources(kw=ns8), K=0, fk=[]))
+        cases.append(dict(prog=[T('pre')] + pg + tail, src=sources(kw=dict(NS, fx=fn('FX', plain('fine')))), K=2, fk=['Cancelled']))
     # 5. sub-template: return ends only the sub-template's call
     sub = tmpl('sub', [T('S1'), Try([Return(N('rv'))], [([], [T('never')])], None), T('S2')])
     ns = dict(NS, sub=sub)
